@@ -36,8 +36,14 @@ def run_property(prop: str, tier: str, repo: str, replay: t.Optional[str] = None
         if replay:
             with open(replay, encoding='utf-8') as f:
                 only = {x['rule'] for x in json.load(f).get('findings', [])}
+        rule_errors: t.List[str] = []
         for rule in spec['rules']:
-            rr = rule(model)
+            try:
+                rr = rule(model)
+            except AnalysisError as e:
+                # an undecided rule never hides a violation found by another rule of the same property
+                rule_errors.append(f"{getattr(rule, '__name__', 'rule')}: {e}")
+                continue
             if only is not None and rr.rule not in only:
                 continue
             results.append(rr)
@@ -75,7 +81,10 @@ def run_property(prop: str, tier: str, repo: str, replay: t.Optional[str] = None
                 out(f"  FINDING {f}")
     rc = 0
     replay_path = ''
+    floor_errors = rule_errors + floor_errors
     if violations:
+        for fe in floor_errors:
+            out(f"    undecided: {fe}")
         rc = 1
         if write:
             os.makedirs(os.path.join(report.EVIDENCE_DIR, 'replay'), exist_ok=True)
